@@ -7,7 +7,7 @@ in : `P <s|b> <template> | <arg>`      `%` formatting; s = str template, b = byt
         arg  : `S <elem>` | `T <elem>*` | `D <key>=<elem> …`
         elem : `i<int>` `bT` `bF` `f` `s<len>` `y<len>` `N` `c` `L` `T` `D`
         key  : `s<cp.cp…>` (str key) | `y<cp.cp…>` (bytes key) | `o` (any other literal key)
-out: `errs=<kind,…|-> crash=<0|1> ty=<str|bytes|any> cpy=<raises|ok:str|ok:bytes> D=<class,…|->`
+out: `errs=<kind,…|-> ty=<str|bytes> cpy=<raises|ok:str|ok:bytes> D=<class,…|->`
 
 in : `F <template> | <nargs> <kwname>*`   `str.format`; keyword names as dot-separated code points
 out: `msgs=<kind,…|-> perr=<kind|-> fields=<name/path/conv/spec/depth;…|-> cpy=<0|1> D=<class,…|->`
@@ -15,7 +15,7 @@ out: `msgs=<kind,…|-> perr=<kind|-> fields=<name/path/conv/spec/depth;…|-> c
 in : `R <template>`                     the scanner alone (checked against Python's `re`)
 out: `<tok>;<tok>…` tok = `bad` | `conv:key:flags:width:prec:len`
 -/
-open Pya
+open Pya Pya.C17
 
 def parseCps (sep : Char) (s : String) : Option (List Char) :=
   if s == "-" || s == "" then some []
@@ -55,13 +55,14 @@ def parseArg (s : String) : Option Arg :=
 def showErr : PErr → String
   | .pctOpts => "pctOpts" | .bOnStr => "bOnStr" | .combine => "combine" | .badSpec => "badSpec"
   | .noSpecs => "noSpecs" | .needMapping => "needMapping" | .missingKeys => "missingKeys"
-  | .tooFew => "tooFew" | .tooMany => "tooMany" | .numeric => "numeric" | .cRange => "cRange"
+  | .tooFew => "tooFew" | .tooMany => "tooMany" | .numeric => "numeric" | .intOnly => "intOnly"
+  | .cRange => "cRange"
   | .cLen => "cLen" | .cType => "cType" | .bytesOnly => "bytesOnly" | .starInt => "starInt"
   | .pctArg => "pctArg"
 
 def showList (xs : List String) : String := if xs.isEmpty then "-" else ",".intercalate xs
 
-def showTy : RTy → String | .str => "str" | .bytes => "bytes" | .anyError => "any"
+def showTy : RTy → String | .str => "str" | .bytes => "bytes"
 
 def cpsOf (cs : List Char) : String :=
   if cs.isEmpty then "" else ".".intercalate (cs.map fun c => toString c.toNat)
@@ -75,7 +76,6 @@ def showTok : Tok → String
     s!"{s.conv.toNat}:{key}:{if s.flags then 1 else 0}:{showWP s.width}:{showWP s.prec}:{if s.len then 1 else 0}"
 
 def pctClasses (b : Bool) (t : List Char) (a : Arg) : List String :=
-  (if D17_hexFloat t a then ["hexFloat"] else []) ++
   (if D17_cRangeStr b t a then ["cRangeStr"] else []) ++
   (if D17_dotNoDigits t then ["dotNoDigits"] else []) ++
   (if D17_emptyKey t then ["emptyKey"] else []) ++
@@ -83,7 +83,6 @@ def pctClasses (b : Bool) (t : List Char) (a : Arg) : List String :=
   (if D17_hugeWidthPrec t then ["hugeWidthPrec"] else []) ++
   (if D17_bytesMapping b t a then ["bytesMapping"] else []) ++
   (if D17_nonStrKey b t a then ["nonStrKey"] else []) ++
-  (if D17_mixedKeyCrash b t a then ["mixedKeyCrash"] else []) ++
   (if D17_pctOnlyMapping b t a then ["pctOnlyMapping"] else [])
 
 def handleP (kind tmpl arg : String) : String :=
@@ -94,7 +93,7 @@ def handleP (kind tmpl arg : String) : String :=
     let cpy := match cpyPercent b t a with
       | .raises => "raises"
       | .ok ty => "ok:" ++ showTy ty
-    s!"errs={showList (o.errs.map showErr)} crash={if o.crash then 1 else 0} ty={showTy o.ty} cpy={cpy} D={showList (pctClasses b t a)}"
+    s!"errs={showList (o.errs.map showErr)} ty={showTy o.ty} cpy={cpy} D={showList (pctClasses b t a)}"
   | _, _ => "bad-op"
 
 def showFErr : FErr → String
